@@ -145,6 +145,30 @@ def run(tier):
                               "form": m.get("form"), "req": m["req"]})
             elif exp == "ok" and not (o.get("finite", True)):
                 ck.violation("valid request returned non-finite data", {"mode": mode, "request": _enc(t)})
+    # boundary sweep: the far boundary itself is valid, one ulp beyond it is not - for decimal spacings and
+    # every cell count (the comparison must be made on the physical coordinate, not on a rounded quotient)
+    sw = []
+    for d in ([0.1, 0.3, 0.7, 0.37, 1.0, 2.5] if tier == "quick" else [0.1, 0.2, 0.3, 0.6, 0.7, 0.9, 0.37, 1.1, 1.0, 2.5, 1e-3, 123.4]):
+        for n in range(1, 21 if tier == "quick" else 41):
+            for ax in (0, 1):
+                for nd in (2, 3):
+                    sh = [1] * nd
+                    sh[ax] = n
+                    edge = d * n
+                    for p, exp in ((edge, "ok"), (float(np.nextafter(edge, np.inf)), "ValueError:source"),
+                                   (-5e-324, "ValueError:source")):
+                        src = [0.5 * d] * nd
+                        src[ax] = p
+                        sw.append({"op": "api_request", "grid": np.ones(sh), "gridsize": [d] * nd, "origin": None,
+                                   "kind": "solve", "sources": src, "kw": {"nsweep": 1}, "expect": exp,
+                                   "meta": {"req": "boundary_sweep", "d": d, "n": n, "axis": ax, "nd": nd}})
+    res = C.run_impl(sw, "interp", timeout=3000)
+    for t, o in zip(sw, res):
+        ck.count(1, sig=("sweep", t["meta"]["d"], t["meta"]["n"] % 4, t["meta"]["axis"], t["meta"]["nd"], t["expect"]))
+        if o["status"] != t["expect"]:
+            ck.violation(f"boundary sweep: expected {t['expect']}, got {o['status']}",
+                         {"mode": "interp", "request": _enc(t), "got": o["status"], "expected": t["expect"],
+                          "req": "boundary_sweep"})
     ck.proved = ["the solver kernels fail iff the source is outside the closed model (as compared by the code: "
                  "0 <= src <= d*n per axis), and then with ValueError('source out of bound'); nothing else is raised",
                  "list wrappers = mapM of the single call: identical results and identical exception for single and list "
